@@ -517,6 +517,10 @@ def long_cases(r, n):
             c = {"fam": "crc", "p": {"alg": r.choice(sorted(R.CRC_PARAMS)), "msg": B(rb(r, ml))}}
         c["full"] = False
         cases.append(c)
+    # CRCs of messages longer than 64 KiB / 128 KiB: an implementation that works in slices must carry its register across them (every named CRC, the
+    # boundary itself and one byte more; the bit-serial reference of lib/c09ref is bound to Crc.tla on every short case)
+    for alg, ml in (("crc32", 65536), ("crc32", 65537), ("crc32", 131149), ("crc32-mpeg", 65537), ("crc16-xmodem", 65537)):
+        cases.append({"fam": "crc", "p": {"alg": alg, "msg": B(rb(r, ml))}, "full": False})
     return cases
 
 
